@@ -403,3 +403,449 @@ Proof. vm_compute. reflexivity. Qed.
 Example C01_cache_T3_cap0_refuted :
   lru_run (lru_new 0) [CInsert 1 10; CGet 1] = [(Some 10, 0%nat); (None, 0%nat)].
 Proof. vm_compute. reflexivity. Qed.
+
+(** * The full stack: the logical LSM state machine and the persistence protocol in lockstep
+    ([proofs/StackDefs.v]): after any number of sessions, each ending in a crash anywhere or cleanly,
+    a get through the real lookup path on the recovered state returns the latest acknowledged write *)
+From Coq Require Import List NArith Bool Arith.
+From RainVerif Require Import Params.
+From RainVerif.model Require Import Bytes Key Block Table TableSpec Version Lsm LsmSpec DbSpec Codec WalModel Gc Recover Proto.
+From RainVerif.proofs Require Import ContentsProofs ProtoDurable ProtoSteps ProtoOpen ProtoInstall ProtoProofs ProtoCrash ProtoHistory LsmProofs.
+From RainVerif.proofs Require Import StackDefs StackProofs.
+From RainVerif.proofs Require CodecProofs.
+Import ListNotations.
+
+(** * The definitions used below *)
+
+(** S1: same memtable, immutable memtable, version, sequence number and file counter; every table
+    of the version reads back from the directory as the entries of the logical store *)
+Example C01_stack_Coupled_def : forall l d,
+  Coupled l d <->
+  (pd_mem d = l_mem l /\ pd_imm d = l_imm l /\ pd_ver d = l_ver l /\ pd_seq d = l_seq l /\
+   pd_next d = l_next l /\ l_panic l = false /\
+   forall n, In n (version_numbers (l_ver l)) -> table_entries_of (pd_img d) n = Some (file_entries l n)).
+Proof. exact Coupled_iff. Qed.
+
+Example C01_stack_Joint_def : forall l d acked,
+  Joint l d acked <-> (lsm_wf_b l = true /\ Coupled l d /\ InvE d acked /\ TabsLive d).
+Proof. exact Joint_iff. Qed.
+
+(** the protocol operation of each logical step *)
+Example C01_stack_pops_of_step_def : forall mfs l st ptrs,
+  pops_of_step mfs l st ptrs =
+  match st with
+  | SWrite b => [QWrite b]
+  | SRotate => [QRotate]
+  | SFlush => flush_pops mfs l
+  | SCompact level seed cuts => compact_pops mfs l level seed cuts ptrs
+  | STrivialMove level seed => move_pops mfs l level seed ptrs
+  | SSnapshot | SRelease _ => []
+  end.
+Proof. reflexivity. Qed.
+
+Example C01_stack_compact_pops_def : forall mfs l level seed cuts ptrs,
+  compact_pops mfs l level seed cuts ptrs =
+  match finalize_inputs true true mfs (l_ver l) level (files_of (l_ver l) level seed) with
+  | None => []
+  | Some ci =>
+      [QInstall (compact_deleted level ci) (compact_added level (compact_outs l level ci cuts)) ptrs (l_seq l)]
+  end.
+Proof. reflexivity. Qed.
+
+Example C01_stack_jrun_ok_def : forall mfs l s st ptrs r,
+  jrun_ok mfs l s [] = True /\
+  jrun_ok mfs l s ((st, ptrs) :: r) =
+  (step_admissible l st /\
+   (forall d, pr_db s = Some d -> step_num_ok mfs l d st ptrs) /\
+   jrun_ok mfs (lsm_step true true mfs l st) (fst (p_run s (pops_of_step mfs l st ptrs))) r).
+Proof. split; reflexivity. Qed.
+
+(** * Finding: the two file counters differ by 2 *)
+
+(** [lsm_init] starts its counter at 1; after [p_open] on the empty directory the protocol's
+    counter is 3 (one number for the manifest's successor, one for the first log). [lsm_init] is
+    therefore never coupled with a freshly created database; the state that is coupled is
+    [fresh_lsm], reachable from [lsm_init] by an empty rotation and an empty flush *)
+Theorem C01_stack_init_counter_refuted : forall o d ops,
+  p_open o empty_image = Some (d, ops) ->
+  pd_next d = 3 /\ l_next lsm_init = 1 /\ ~ Coupled lsm_init d /\ Coupled fresh_lsm d.
+Proof. exact init_counter_offset. Qed.
+Print Assumptions C01_stack_init_counter_refuted.
+
+Theorem C01_stack_fresh_reachable : forall mfs, lsm_run true true mfs [SRotate; SFlush] = fresh_lsm.
+Proof. exact fresh_lsm_reachable. Qed.
+Print Assumptions C01_stack_fresh_reachable.
+
+Theorem C01_stack_open_fresh : forall o,
+  exists d0 ops0, p_open o empty_image = Some (d0, ops0) /\ Coupled fresh_lsm d0 /\ TabsLive d0.
+Proof. exact open_fresh. Qed.
+Print Assumptions C01_stack_open_fresh.
+
+(** * S2: joint steps *)
+
+(** every joint step keeps the joint invariant; its protocol operation satisfies the side
+    conditions of [C02_crash_safe_with_installs] ([run_okP]: [install_okb] and [install_preserves]
+    included) *)
+Theorem C01_stack_joint_step : forall mfs l d acked st ptrs,
+  Joint l d acked -> step_admissible l st -> step_num_ok mfs l d st ptrs ->
+  let ops := pops_of_step mfs l st ptrs in
+  run_okP (started d) ops /\
+  exists d', fst (p_run (started d) ops) = started d' /\
+             Joint (lsm_step true true mfs l st) d' (acked ++ acked_batches (nops acked) ops).
+Proof. exact joint_step. Qed.
+Print Assumptions C01_stack_joint_step.
+
+Theorem C01_stack_joint_run : forall mfs js l d acked,
+  Joint l d acked -> jrun_ok mfs l (started d) js ->
+  let ops := joint_pops mfs l js in
+  run_okP (started d) ops /\
+  exists d', fst (p_run (started d) ops) = started d' /\
+             Joint (jlsm mfs l js) d' (acked ++ acked_batches (nops acked) ops).
+Proof. exact joint_run. Qed.
+Print Assumptions C01_stack_joint_run.
+
+(** the hypothesis of the protocol's crash-safety theorem is discharged for the edit of
+    [do_compact] on a well-formed state; the only condition on snapshots is
+    [smallest_snapshot l < MAX_SEQ] (part of [step_admissible]); the remaining side condition is the
+    wire format of the manifest record *)
+Theorem C01_stack_compact_install_ok : forall mfs l d acked level seed cuts ptrs ci,
+  Joint l d acked -> compact_adm l level seed -> smallest_snapshot l < MAX_SEQ ->
+  finalize_inputs true true mfs (l_ver l) level (files_of (l_ver l) level seed) = Some ci ->
+  let del := compact_deleted level ci in
+  let add := compact_added level (compact_outs l level ci cuts) in
+  CodecProofs.vchange_ok (install_change' d del add ptrs (l_seq l)) = true ->
+  install_okb d del add ptrs (l_seq l) = true /\ install_preserves d del add ptrs (l_seq l).
+Proof. exact compact_install_ok. Qed.
+Print Assumptions C01_stack_compact_install_ok.
+
+(** the trivial-move case: the record must not re-add a (level, number) pair the manifest already
+    names ([install_hist_ok], a conjunct of [install_okb]). With that as a hypothesis: *)
+Theorem C01_stack_move_install_ok : forall mfs l d acked level seed ptrs o,
+  Joint l d acked -> compact_adm l level seed ->
+  move_pops mfs l level seed ptrs = [o] -> install_num_ok d o -> install_hist_ok d o ->
+  step_okP (started d) o.
+Proof. exact move_install_ok_partial. Qed.
+Print Assumptions C01_stack_move_install_ok.
+
+(** ... and it is discharged by an invariant of joint runs: the history of the manifest is
+    monotone ([HistMonoV]: every (level, file) ever added lies at or above the level where a live
+    file with that number is now: a file only moves down). [JointH] = [Joint] + that invariant *)
+Example C01_stack_HistMonoV_def : forall a v,
+  HistMonoV a v =
+  (forall lv g, In (lv, g) (ma_added a) ->
+   forall i f, In f (level_files v i) -> fm_num f = fm_num g -> (lv <= i)%nat).
+Proof. reflexivity. Qed.
+
+Example C01_stack_JointH_def : forall l d acked,
+  JointH l d acked = (Joint l d acked /\ HistMonoV (recorded_acc (pd_img d)) (pd_ver d)).
+Proof. reflexivity. Qed.
+
+(** [step_num_ok0]: the numeric side conditions only (no history condition for trivial moves) *)
+Example C01_stack_step_num_ok0_def : forall mfs l d st ptrs,
+  step_num_ok0 mfs l d st ptrs =
+  match st with
+  | STrivialMove level seed => Forall (install_num_ok d) (move_pops mfs l level seed ptrs)
+  | _ => step_num_ok mfs l d st ptrs
+  end.
+Proof. reflexivity. Qed.
+
+Theorem C01_stack_move_hist_ok : forall mfs l d acked level seed ptrs,
+  JointH l d acked -> compact_adm l level seed ->
+  Forall (install_hist_ok d) (move_pops mfs l level seed ptrs).
+Proof. exact move_hist_ok. Qed.
+Print Assumptions C01_stack_move_hist_ok.
+
+(** S2 in full: every joint step, numeric side conditions only *)
+Theorem C01_stack_joint_step_h : forall mfs l d acked st ptrs,
+  JointH l d acked -> step_admissible l st -> step_num_ok0 mfs l d st ptrs ->
+  let ops := pops_of_step mfs l st ptrs in
+  run_okP (started d) ops /\
+  exists d', fst (p_run (started d) ops) = started d' /\
+             JointH (lsm_step true true mfs l st) d' (acked ++ acked_batches (nops acked) ops).
+Proof. exact joint_step_h. Qed.
+Print Assumptions C01_stack_joint_step_h.
+
+Theorem C01_stack_joint_run_h : forall mfs js l d acked,
+  JointH l d acked -> jrun_ok0 mfs l (started d) js ->
+  let ops := joint_pops mfs l js in
+  run_okP (started d) ops /\
+  exists d', fst (p_run (started d) ops) = started d' /\
+             JointH (jlsm mfs l js) d' (acked ++ acked_batches (nops acked) ops).
+Proof. exact joint_run_h. Qed.
+Print Assumptions C01_stack_joint_run_h.
+
+(** from the freshly created database the hypotheses of S3 are numeric only *)
+Theorem C01_stack_fresh_jrun_ok0 : forall mfs o js,
+  open_okb o empty_image = true -> jrun_ok0 mfs fresh_lsm (opened o) js -> jrun_ok mfs fresh_lsm (opened o) js.
+Proof. exact fresh_jrun_ok0. Qed.
+Print Assumptions C01_stack_fresh_jrun_ok0.
+
+(** the size a flush records is determined by the logical step: [fm_size] is part of the version,
+    so a [QFlush] with any other size leaves versions that differ (in the sizes only) *)
+Example C01_stack_flush_other_size_refuted :
+  let js := firstn 2 ex_js in
+  let l := jlsm ex_mfs fresh_lsm js in
+  match pr_db (fst (p_run prun_init (joint_ops ex_mfs ex_o js))), flush_pops ex_mfs l with
+  | Some d, [QFlush lv sz q] =>
+      match p_flush d lv (sz + 1) q with
+      | Some (d', _) =>
+          map (map fm_size) (pd_ver d') <> map (map fm_size) (l_ver (lsm_step true true ex_mfs l SFlush))
+          /\ map (map fm_num) (pd_ver d') = map (map fm_num) (l_ver (lsm_step true true ex_mfs l SFlush))
+      | None => False
+      end
+  | _, _ => False
+  end.
+Proof. exact ex_flush_size_refuted. Qed.
+
+(** the two sides agree at every step boundary: the real lookup path of the logical state returns
+    what the acknowledged batches replay to *)
+Theorem C01_stack_joint_get : forall l d acked,
+  Joint l d acked -> forall k, db_get l k = map_get k (replay [] acked).
+Proof. exact joint_get. Qed.
+Print Assumptions C01_stack_joint_get.
+
+Theorem C01_stack_joint_contents : forall l d acked,
+  Joint l d acked -> contents (all_entries l) (l_seq l) = replay [] acked.
+Proof. exact joint_contents. Qed.
+Print Assumptions C01_stack_joint_contents.
+
+(** * S3: the full stack without reopen *)
+
+(** every joint run from the freshly created database satisfies the hypotheses of the protocol's
+    crash-safety theorem, never fails, and ends in a joint state *)
+Theorem C01_stack_stack_run : forall mfs o js,
+  open_okb o empty_image = true -> jrun_ok mfs fresh_lsm (opened o) js ->
+  let ops := joint_ops mfs o js in
+  run_okP prun_init ops /\ pr_failed (fst (p_run prun_init ops)) = false /\
+  exists d', pr_db (fst (p_run prun_init ops)) = Some d' /\ pr_img (fst (p_run prun_init ops)) = pd_img d' /\
+             Joint (jlsm mfs fresh_lsm js) d' (acked_batches 0 ops).
+Proof. exact stack_run. Qed.
+Print Assumptions C01_stack_stack_run.
+
+(** every crash point, every tear: either the crash came before CURRENT was installed for the
+    first time (nothing was acknowledged), or the image recovers, and a lookup in the recovered
+    contents returns what [db_get] returns in the logical state after any prefix of the joint run
+    with exactly the [k] writes that the crash point preserves ([k] as in C02) *)
+Theorem C01_stack_stack_crash_get : forall mfs o js,
+  open_okb o empty_image = true -> jrun_ok mfs fresh_lsm (opened o) js ->
+  let ops := joint_ops mfs o js in
+  let eff := snd (p_run prun_init ops) in
+  forall n torn, (n <= length eff)%nat ->
+  let img := crash_image empty_image eff n torn in
+  let k := crash_k prun_init ops n torn in
+  (k <= jwrites js)%nat /\
+  ((i_current img = None /\ k = 0%nat) \/
+   exists rc, recover_image img = inl rc /\
+     forall j, (j <= length js)%nat -> jwrites (firstn j js) = k ->
+       let lj := jlsm mfs fresh_lsm (firstn j js) in
+       lsm_wf_b lj = true /\ rc_seq rc = l_seq lj /\
+       forall key, map_get key (rec_contents img rc) = db_get lj key).
+Proof. exact stack_crash_get. Qed.
+Print Assumptions C01_stack_stack_crash_get.
+
+(** the same with the specification of a read spelled out ([C01_db_get_current]) *)
+Theorem C01_stack_stack_crash_visible : forall mfs o js,
+  open_okb o empty_image = true -> jrun_ok mfs fresh_lsm (opened o) js ->
+  let ops := joint_ops mfs o js in
+  let eff := snd (p_run prun_init ops) in
+  forall n torn, (n <= length eff)%nat ->
+  let img := crash_image empty_image eff n torn in
+  let k := crash_k prun_init ops n torn in
+  i_current img = None \/
+  exists rc, recover_image img = inl rc /\
+    forall j, (j <= length js)%nat -> jwrites (firstn j js) = k ->
+      let lj := jlsm mfs fresh_lsm (firstn j js) in
+      forall key, map_get key (rec_contents img rc) = visible (all_entries lj) (l_seq lj) key.
+Proof. exact stack_crash_visible. Qed.
+Print Assumptions C01_stack_stack_crash_visible.
+
+Theorem C01_stack_prefix_exists : forall js k, (k <= jwrites js)%nat ->
+  exists j, (j <= length js)%nat /\ jwrites (firstn j js) = k.
+Proof. exact jwrites_prefix_exists. Qed.
+Print Assumptions C01_stack_prefix_exists.
+
+(** * S4: reopen *)
+
+Example C01_stack_lsm_of_pdb_def : forall d,
+  lsm_of_pdb d = mkLsm (pd_mem d) (pd_imm d) (pd_ver d) (store_of (pd_img d)) (pd_seq d) [] (pd_next d) false.
+Proof. reflexivity. Qed.
+
+Example C01_stack_LogicalImg_def : forall img,
+  LogicalImg img =
+  (forall ms, recover_manifest img = inl ms ->
+     exists lb, WF (strip lb) /\ l_ver lb = ms_version ms /\ TabsAre lb img).
+Proof. reflexivity. Qed.
+
+(** opening a directory that a crash or a clean shutdown left ([Crashed], C02) and that is the
+    image of a logical state: the logical state rebuilt by [p_open] (version from the manifest plus
+    the level-0 tables written during log replay, store from the directory, memtable from the
+    reused log) is well formed and coupled with the database [p_open] returns *)
+Theorem C01_stack_reopen_joint : forall o img bs d' ops,
+  Crashed img bs -> LogicalImg img -> open_okb o img = true ->
+  p_open o img = Some (d', ops) ->
+  Joint (lsm_of_pdb d') d' bs.
+Proof. exact reopen_joint. Qed.
+Print Assumptions C01_stack_reopen_joint.
+
+Theorem C01_stack_reopen_get : forall o img bs d' ops,
+  Crashed img bs -> LogicalImg img -> open_okb o img = true ->
+  p_open o img = Some (d', ops) ->
+  forall k, db_get (lsm_of_pdb d') k = map_get k (replay [] bs).
+Proof. exact reopen_get. Qed.
+Print Assumptions C01_stack_reopen_get.
+
+(** which directories are images of a logical state: every step boundary of a joint run, ... *)
+Theorem C01_stack_joint_logical : forall l d acked, Joint l d acked -> LogicalImg (pd_img d).
+Proof. exact joint_logical. Qed.
+Print Assumptions C01_stack_joint_logical.
+
+Theorem C01_stack_reopen_after_close : forall o l d acked d' ops,
+  Joint l d acked -> open_okb o (pd_img d) = true -> p_open o (pd_img d) = Some (d', ops) ->
+  Joint (lsm_of_pdb d') d' acked.
+Proof. exact reopen_after_close. Qed.
+Print Assumptions C01_stack_reopen_after_close.
+
+(** ... every crash image of the steps of a joint run (any number of file operations, the last one
+    torn anywhere), ... *)
+Theorem C01_stack_jrun_crash_logical : forall mfs js l d acked,
+  Joint l d acked -> jrun_ok mfs l (started d) js ->
+  all_crash LogicalImg (pd_img d) (snd (p_run (started d) (joint_pops mfs l js))).
+Proof. exact jrun_crash_logical. Qed.
+Print Assumptions C01_stack_jrun_crash_logical.
+
+(** ... and every crash image of a recovery itself *)
+Theorem C01_stack_open_crash_logical : forall o img bs d' ops,
+  Crashed img bs -> LogicalImg img -> open_okb o img = true ->
+  p_open o img = Some (d', ops) ->
+  all_crash LogicalImg img ops.
+Proof. exact open_crash_logical. Qed.
+Print Assumptions C01_stack_open_crash_logical.
+
+(** S3 + S4: a crash anywhere in the steps of a joint run, then a reopen with any oracle *)
+Theorem C01_stack_joint_crash_reopen : forall mfs l d acked js,
+  Joint l d acked -> jrun_ok mfs l (started d) js ->
+  let ops := joint_pops mfs l js in
+  let eff := snd (p_run (started d) ops) in
+  forall n torn, (n <= length eff)%nat ->
+  let img := crash_image (pd_img d) eff n torn in
+  let bs := acked ++ firstn (crash_k (started d) ops n torn) (acked_batches (nops acked) ops) in
+  Crashed img bs /\ LogicalImg img /\
+  forall o2 d' ops', open_okb o2 img = true -> p_open o2 img = Some (d', ops') ->
+    Joint (lsm_of_pdb d') d' bs /\ forall k, db_get (lsm_of_pdb d') k = map_get k (replay [] bs).
+Proof. exact joint_crash_reopen. Qed.
+Print Assumptions C01_stack_joint_crash_reopen.
+
+Theorem C01_stack_stack_crash_reopen : forall mfs o js,
+  open_okb o empty_image = true -> jrun_ok mfs fresh_lsm (opened o) js ->
+  let ops := joint_pops mfs fresh_lsm js in
+  let eff := snd (p_run (opened o) ops) in
+  forall n torn, (n <= length eff)%nat ->
+  let img := crash_image (pr_img (opened o)) eff n torn in
+  let bs := firstn (crash_k (opened o) ops n torn) (acked_batches 0 ops) in
+  Crashed img bs /\ LogicalImg img /\
+  forall o2 d' ops', open_okb o2 img = true -> p_open o2 img = Some (d', ops') ->
+    Joint (lsm_of_pdb d') d' bs /\ forall k, db_get (lsm_of_pdb d') k = map_get k (replay [] bs).
+Proof. exact stack_crash_reopen. Qed.
+Print Assumptions C01_stack_stack_crash_reopen.
+
+(** * End to end: any number of sessions, each one a recovery, a joint run and a crash anywhere
+    (in the recovery or in the steps; the clean end is the crash point after the last operation) *)
+Theorem C01_stack_joint_session_safe : forall mfs img bs o js d0 ops0,
+  Crashed img bs -> LogicalImg img -> open_okb o img = true -> p_open o img = Some (d0, ops0) ->
+  jrun_ok mfs (lsm_of_pdb d0) (started d0) js ->
+  let ops := QOpen o :: joint_pops mfs (lsm_of_pdb d0) js in
+  let s := session_start img in
+  let eff := snd (p_run s ops) in
+  forall n torn, (n <= length eff)%nat ->
+    let img' := crash_image img eff n torn in
+    let bs' := bs ++ firstn (crash_k s ops n torn) (acked_batches (nops bs) ops) in
+    Crashed img' bs' /\ LogicalImg img'.
+Proof. exact joint_session_safe. Qed.
+Print Assumptions C01_stack_joint_session_safe.
+
+Theorem C01_stack_jreach_safe : forall mfs img bs, JReach mfs img bs -> Crashed img bs /\ LogicalImg img.
+Proof. exact jreach_safe. Qed.
+Print Assumptions C01_stack_jreach_safe.
+
+(** after any crash, of any session, a get on the recovered database returns the latest
+    acknowledged write, found through the real lookup path of the rebuilt logical state *)
+Theorem C01_stack_jreach_get : forall mfs img bs o d' ops,
+  JReach mfs img bs -> open_okb o img = true -> p_open o img = Some (d', ops) ->
+  Joint (lsm_of_pdb d') d' bs /\ forall k, db_get (lsm_of_pdb d') k = map_get k (replay [] bs).
+Proof. exact jreach_get. Qed.
+Print Assumptions C01_stack_jreach_get.
+
+(** the same with numeric side conditions only: the monotone history survives crashes and
+    recoveries ([HistImg]: the crashed directory has it) *)
+Theorem C01_stack_reopen_jointH : forall o img bs d' ops,
+  Crashed img bs -> LogicalImg img -> HistImg img -> open_okb o img = true ->
+  p_open o img = Some (d', ops) ->
+  JointH (lsm_of_pdb d') d' bs.
+Proof. exact reopen_jointH. Qed.
+Print Assumptions C01_stack_reopen_jointH.
+
+Theorem C01_stack_joint_session_safe_h : forall mfs img bs o js d0 ops0,
+  Crashed img bs -> LogicalImg img -> HistImg img -> open_okb o img = true -> p_open o img = Some (d0, ops0) ->
+  jrun_ok0 mfs (lsm_of_pdb d0) (started d0) js ->
+  let ops := QOpen o :: joint_pops mfs (lsm_of_pdb d0) js in
+  let s := session_start img in
+  let eff := snd (p_run s ops) in
+  forall n torn, (n <= length eff)%nat ->
+    let img' := crash_image img eff n torn in
+    let bs' := bs ++ firstn (crash_k s ops n torn) (acked_batches (nops bs) ops) in
+    Crashed img' bs' /\ LogicalImg img' /\ HistImg img'.
+Proof. exact joint_session_safe_h. Qed.
+Print Assumptions C01_stack_joint_session_safe_h.
+
+Theorem C01_stack_jreach_h_safe : forall mfs img bs,
+  JReachH mfs img bs -> Crashed img bs /\ LogicalImg img /\ HistImg img.
+Proof. exact jreach_h_safe. Qed.
+Print Assumptions C01_stack_jreach_h_safe.
+
+(** THE END-TO-END THEOREM: any number of sessions from the empty directory, each one a recovery
+    (any oracle), a joint run (every record fits its wire format, every logical step admissible)
+    and a crash anywhere; after the last crash a get on the reopened database, through the real
+    lookup path of the rebuilt logical state, returns the latest acknowledged write *)
+Theorem C01_stack_jreach_h_get : forall mfs img bs o d' ops,
+  JReachH mfs img bs -> open_okb o img = true -> p_open o img = Some (d', ops) ->
+  JointH (lsm_of_pdb d') d' bs /\ forall k, db_get (lsm_of_pdb d') k = map_get k (replay [] bs).
+Proof. exact jreach_h_get. Qed.
+Print Assumptions C01_stack_jreach_h_get.
+
+(** * The side conditions are decidable on concrete runs *)
+Theorem C01_stack_jrun_ok_b_sound : forall mfs js l s, jrun_ok_b mfs l s js = true -> jrun_ok mfs l s js.
+Proof. exact jrun_ok_b_sound. Qed.
+Print Assumptions C01_stack_jrun_ok_b_sound.
+
+Theorem C01_stack_jrun_ok0_b_sound : forall mfs js l s, jrun_ok0_b mfs l s js = true -> jrun_ok0 mfs l s js.
+Proof. exact jrun_ok0_b_sound. Qed.
+Print Assumptions C01_stack_jrun_ok0_b_sound.
+
+(** * S5: non-vacuity *)
+
+(** the hypotheses of S3 hold of the example run *)
+Example C01_stack_ex_run_ok : open_okb ex_o empty_image = true /\ jrun_ok ex_mfs fresh_lsm (opened ex_o) ex_js.
+Proof. exact ex_run_ok. Qed.
+
+Example C01_stack_ex_run_ok0 : jrun_ok0 ex_mfs fresh_lsm (opened ex_o) ex_js.
+Proof. exact ex_run_ok0. Qed.
+
+(** three flushes land in levels 2, 1 and 0; the compaction merges level 0 into level 1; the
+    trivial move takes table 5 from level 2 to level 3 *)
+Example C01_stack_ex_run_shape :
+  map (map fm_num) (l_ver (jlsm ex_mfs fresh_lsm (firstn 10 ex_js))) = [[9]; [7]; [5]; []; []; []; []]
+  /\ map (map fm_num) (l_ver (jlsm ex_mfs fresh_lsm (firstn 12 ex_js))) = [[]; [10]; [5]; []; []; []; []]
+  /\ map (map fm_num) (l_ver (jlsm ex_mfs fresh_lsm ex_js)) = [[]; [10]; []; [5]; []; []; []]
+  /\ length ex_eff = 33%nat /\ length ex_acked = 6%nat
+  /\ map (fun k => db_get (jlsm ex_mfs fresh_lsm ex_js) k) ex_keys = [Some [6]; None; Some [9]; Some [5]; None].
+Proof. exact ex_run_shape. Qed.
+
+(** every crash point (0..33 file operations, the last one complete or torn at 0..39 bytes),
+    reopened with log reuse and without (and with a memtable cut during replay): the rebuilt
+    logical state is well formed and [db_get] returns the latest acknowledged write *)
+Example C01_stack_ex_every_crash_point :
+  forallb (fun o2 =>
+    forallb (fun n => forallb (ex_check o2 n) (None :: map Some (seq 0 40)))
+            (seq 0 (S (length ex_eff))))
+    [ex_o; ex_o2] = true.
+Proof. exact ex_every_crash_point. Qed.
